@@ -239,7 +239,14 @@ impl<V: VringT<Mem> + Send + Sync + 'static> VhostUserBackend for RB<V> {
         let ev = Ev { seq: stamp(), tid: sys::gettid(), thread_id, device_event, nvrings: vrings.len(), ring_size };
         let (cmds, mem) = {
             let mut g = self.st.lock().unwrap();
-            g.events.push(ev);
+            if g.events.len() < 200_000 {
+                g.events.push(ev);
+            } else {
+                // a dispatch storm: stop recording, yield so that the control thread can make progress
+                drop(g);
+                std::thread::sleep(std::time::Duration::from_millis(1));
+                return Ok(());
+            }
             if device_event as usize <= self.cfg.num_queues {
                 return Ok(());
             }
@@ -291,6 +298,13 @@ pub fn sock_path() -> String {
     format!("/tmp/hd-{}-{}.sock", std::process::id(), SOCK_N.fetch_add(1, Ordering::SeqCst))
 }
 
+#[derive(Clone, Copy, Debug, PartialEq, Eq)]
+pub enum Quiet {
+    Yes,
+    Storm,
+    Timeout,
+}
+
 pub struct Worker {
     pub epfd: RawFd,
     pub tid: i32,
@@ -299,8 +313,23 @@ pub struct Worker {
     pub custom_data: u64,
 }
 
+/// Outcome of dropping the daemon (exit events raised, worker threads joined).
+#[derive(Clone, Debug, PartialEq, Eq)]
+pub enum Teardown {
+    /// every worker thread terminated and the drop returned
+    Clean,
+    /// the backend's handle_event was called with the exit event's id (num_queues) `n` times
+    ExitDelivered(usize),
+    /// the dropping thread is parked joining while every remaining worker is parked in
+    /// epoll_wait with nothing ready: nothing can wake them
+    Stuck(String),
+    /// watchdog expiry without either certificate
+    Timeout,
+}
+
 pub struct Sess<V: VringT<Mem> + Clone + Send + Sync + 'static> {
-    pub daemon: VhostUserDaemon<RB<V>>,
+    pub daemon: std::mem::ManuallyDrop<VhostUserDaemon<RB<V>>>,
+    torn_down: bool,
     pub be: RB<V>,
     pub listener: Listener,
     pub path: String,
@@ -318,7 +347,7 @@ impl<V: VringT<Mem> + Clone + Send + Sync + 'static> Sess<V> {
         let daemon = VhostUserDaemon::new("hd-daemon".to_string(), be.clone(), mem).expect("daemon");
         let path = sock_path();
         let listener = Listener::new(&path, true).expect("listener");
-        let mut s = Sess { daemon, be, listener, path, workers: Vec::new(), daemon_threads_before: before };
+        let mut s = Sess { daemon: std::mem::ManuallyDrop::new(daemon), torn_down: false, be, listener, path, workers: Vec::new(), daemon_threads_before: before };
         s.attach_custom_listeners();
         s
     }
@@ -398,14 +427,33 @@ impl<V: VringT<Mem> + Clone + Send + Sync + 'static> Sess<V> {
 
     /// Wait until every worker is parked in epoll_wait and the event log stopped growing.
     pub fn quiesce(&self) -> bool {
+        self.quiesce_ex() == Quiet::Yes
+    }
+
+    /// Like `quiesce`, but tells a dispatch storm (the event log keeps growing by thousands of
+    /// entries: a level-triggered descriptor nobody consumes) from a plain watchdog expiry.
+    pub fn quiesce_ex(&self) -> Quiet {
+        let start = self.be.st.lock().unwrap().events.len();
         let mut last = usize::MAX;
-        sys::wait_until(20_000, || {
+        let mut storm = false;
+        let ok = sys::wait_until(20_000, || {
             let n = self.be.st.lock().unwrap().events.len();
+            if n > start + 20_000 {
+                storm = true;
+                return true;
+            }
             let parked = (0..self.workers.len()).all(|i| self.worker_parked(i));
             let stable = n == last;
             last = n;
             parked && stable
-        })
+        });
+        if storm {
+            Quiet::Storm
+        } else if ok {
+            Quiet::Yes
+        } else {
+            Quiet::Timeout
+        }
     }
 
     pub fn events(&self) -> Vec<Ev> {
@@ -423,8 +471,79 @@ impl<V: VringT<Mem> + Clone + Send + Sync + 'static> Sess<V> {
     }
 }
 
+impl<V: VringT<Mem> + Clone + Send + Sync + 'static> Sess<V> {
+    /// Drop the daemon on a helper thread and decide, from thread states, whether the drop
+    /// completed. Never blocks for ever: a daemon whose workers do not react to their exit event
+    /// would otherwise hang the harness in `JoinHandle::join`.
+    pub fn teardown(&mut self) -> Teardown {
+        if self.torn_down {
+            return Teardown::Clean;
+        }
+        self.torn_down = true;
+        // SAFETY: taken exactly once (torn_down), never used afterwards.
+        let daemon = unsafe { std::mem::ManuallyDrop::take(&mut self.daemon) };
+        if !self.be.cfg.exit_events {
+            // without exit events the drop joins for ever by design: leave the daemon alone
+            std::mem::forget(daemon);
+            return Teardown::Clean;
+        }
+        let nq = self.be.cfg.num_queues;
+        let wtids: Vec<i32> = self.workers.iter().map(|w| w.tid).filter(|t| *t > 0).collect();
+        let epfds: Vec<RawFd> = self.workers.iter().map(|w| w.epfd).collect();
+        let done = Arc::new(std::sync::atomic::AtomicBool::new(false));
+        let tidcell = Arc::new(std::sync::atomic::AtomicI32::new(0));
+        let (d2, t2) = (done.clone(), tidcell.clone());
+        let _ = std::thread::Builder::new().name("hd-dropper".into()).spawn(move || {
+            t2.store(sys::gettid(), Ordering::SeqCst);
+            drop(daemon);
+            d2.store(true, Ordering::SeqCst);
+        });
+        let mut stuck_samples = 0;
+        let mut out = Teardown::Timeout;
+        let be = self.be.clone();
+        sys::wait_until(30_000, || {
+            if done.load(Ordering::SeqCst) {
+                out = Teardown::Clean;
+                return true;
+            }
+            let n = be.st.lock().unwrap().events.iter().filter(|e| e.device_event as usize == nq).count();
+            if n > 0 {
+                out = Teardown::ExitDelivered(n);
+                return true;
+            }
+            let dt = tidcell.load(Ordering::SeqCst);
+            let live: Vec<i32> = sys::threads().into_iter().map(|t| t.0).filter(|t| wtids.contains(t)).collect();
+            let all_parked = dt > 0
+                && sys::parked_in(dt, &[sys::SYS_FUTEX])
+                && !live.is_empty()
+                && live.iter().all(|t| sys::parked_in(*t, &[sys::SYS_EPOLL_WAIT, sys::SYS_EPOLL_PWAIT]))
+                && epfds.iter().all(|e| sys::epoll_ready(*e) == 0);
+            if all_parked {
+                stuck_samples += 1;
+                if stuck_samples >= 5 {
+                    out = Teardown::Stuck(format!("dropper tid {dt} parked in futex; workers {live:?} parked in epoll_wait with no ready event"));
+                    return true;
+                }
+            } else {
+                stuck_samples = 0;
+            }
+            false
+        });
+        out
+    }
+}
+
 impl<V: VringT<Mem> + Clone + Send + Sync + 'static> Drop for Sess<V> {
     fn drop(&mut self) {
+        let t = self.teardown();
+        if t != Teardown::Clean {
+            // the daemon's threads are spinning or stuck; nothing more can be decided in this
+            // process. Not a verdict on the property under test: checks that own the teardown
+            // clauses (C16, C17) call `teardown()` themselves and judge it.
+            common::report::inconclusive(&format!("daemon teardown did not complete: {t:?}"));
+            let rc = common::report::finish();
+            std::process::exit(if rc == 0 { 2 } else { rc });
+        }
         for w in &self.workers {
             sys::close(w.custom_fd);
         }
